@@ -639,7 +639,7 @@ func (f *Formatter) renderOpenTag(n *html.Node) string {
 }
 
 // charRefRe matches the text that an HTML parser would try to read as a character reference.
-var charRefRe = regexp.MustCompile(`^&(#[0-9]+;?|#[xX][0-9a-fA-F]+;?|[A-Za-z][A-Za-z0-9]*;?)`)
+var charRefRe = regexp.MustCompile(`^&(#[0-9]+;?|#[xX][0-9a-fA-F]*;?|[A-Za-z][A-Za-z0-9]*;?)`)
 
 // escapeAttr makes val safe between double quotes without changing how it reads back:
 // the double quote is written as &quot;, and an ampersand is written as &amp; only where it
